@@ -213,8 +213,10 @@ func findTracked() {
 			continue
 		}
 		for i := 0; i < st.NumFields(); i++ {
-			if isMutex(st.Field(i).Type()) && !isPointer(st.Field(i).Type()) {
-				tracked[tn] = true
+			ft := st.Field(i).Type()
+			_, isChan := ft.Underlying().(*types.Chan)
+			if isSyncObj(ft) || isChan {
+				tracked[tn] = true // built to be shared between goroutines
 			}
 		}
 	}
